@@ -44,11 +44,51 @@ class RecFS:
         self.ops = []
 
 
+class _Stat:
+    def __init__(self, size):
+        self.st_size = size
+        self.st_mtime = 0
+
+
+def _label(p):
+    return str(p).replace("⟦", "").replace("⟧", "")
+
+
 class RecPath:
     fs: RecFS = None
+    pre = {}     # symbolic pre-existing state of the output directory, per path label
 
     def __init__(self, p):
         self.p = p.p if isinstance(p, RecPath) else p
+
+    def _pre(self):
+        k = _label(self.p)
+        if k not in RecPath.pre:
+            from ..pysym import SymInt
+            size, c = SymInt.fresh(f"pre_size_{k}", 0, 1 << 20)
+            RecPath.pre[k] = {"exists": z3.Bool(f"pre_exists_{k}"), "size": size, "size_c": c,
+                              "text": SymAtom(f"pre_text_{k}")}
+        return RecPath.pre[k]
+
+    def exists(self):
+        return SymBool(self._pre()["exists"])
+
+    def is_file(self):
+        return SymBool(self._pre()["exists"])
+
+    def stat(self):
+        pr = self._pre()
+        from ..pysym import Engine
+        Engine.cur.assume(pr["size_c"])
+        if not SymBool(pr["exists"]):
+            raise FileNotFoundError(2, "No such file or directory")
+        return _Stat(pr["size"])
+
+    def read_text(self, *a, **k):
+        pr = self._pre()
+        if not SymBool(pr["exists"]):
+            raise FileNotFoundError(2, "No such file or directory")
+        return pr["text"]
 
     @property
     def parent(self):
@@ -73,9 +113,6 @@ class RecPath:
         RecPath.fs.ops.append(("open", self.p, a))
         raise OSError("open through the recording model")
 
-    def is_file(self):
-        return False
-
     def __fspath__(self):
         RecPath.fs.ops.append(("fspath", self.p))
         raise OSError("real file-system access through the recording model")
@@ -95,6 +132,21 @@ class RecOS:
         return f
 
 
+_LEN = {}
+
+
+def _sym_len(x):
+    """len() inside fcp.codegen: the length of an opaque contents/path atom is an unconstrained symbolic size."""
+    if type(x) is SymAtom:
+        from ..pysym import SymInt, Engine
+        if x.label not in _LEN:
+            _LEN[x.label] = SymInt.fresh(f"len_{x.label}", 0, 1 << 20)
+        v, c = _LEN[x.label]
+        Engine.cur.assume(c)
+        return v
+    return len(x)
+
+
 def _setup():
     add_repo_paths()
     stubs = os.path.join(VERIF, "verif", "stubs")
@@ -107,6 +159,7 @@ def _setup():
     codegen.os = RecOS()
     codegen.print = lambda *a, **k: RecPath.fs.ops.append(("print", a))
     codegen.str = lambda x="": x if type(x) in (SymAtom, SymText) else str(x)
+    codegen.len = _sym_len
     import logging
     logging.getLogger().setLevel(logging.CRITICAL)
     return codegen
@@ -121,7 +174,7 @@ CATEGORY_SETS = {
 
 
 def c10_case(args):
-    setname, nrecords, tier = args
+    setname, nrecords, history, tier = args
     codegen = _setup()
     import fcp_vstub
     from fcp.verifier import make_general_verifier
@@ -130,7 +183,9 @@ def c10_case(args):
     known = Known("C10")
     fcp = parse(SCHEMA)
     cats = CATEGORY_SETS[setname]
-    feats = {"desc": f"{setname}/records{nrecords}", "checks": cats}
+    feats = {"desc": f"{setname}/records{nrecords}" + ("/after-an-accepted-generation" if history else ""), "checks": cats}
+    RecPath.pre = {}
+    _LEN.clear()
     space = AtomSpace()
     for s in ("file", "print"):
         space.const(s)
@@ -151,15 +206,34 @@ def c10_case(args):
     def body():
         fs = RecFS()
         RecPath.fs = fs
-        fcp_vstub.CONFIG.update({"checks": cats, "records": recs, "verdict": verdict, "calls": []})
         gm = codegen.GeneratorManager(make_general_verifier())
+        if history:
+            # an earlier, accepted generation of the same schema object through the same manager (a plug-in
+            # without checks): the later call must still consult the checks registered for it
+            fcp_vstub.CONFIG.update({"checks": [], "records": [], "verdict": verdict, "calls": []})
+            first = gm.generate("vstub", None, None, fcp, "outdir")
+            if not (hasattr(first, "is_ok") and first.is_ok()):
+                raise EngineLimit(f"history prefix was not accepted: {first!r}")
+            fs.ops.clear()
+        fcp_vstub.CONFIG.update({"checks": cats, "records": recs, "verdict": verdict, "calls": []})
         out = gm.generate("vstub", None, None, fcp, "outdir")
         return out, list(fs.ops), list(fcp_vstub.CONFIG["calls"])
 
     def mk(m):
         vs = {f"{k[0]}/{k[1]}": bool(z3.is_true(m.eval(v, model_completion=True))) for k, v in verdicts.items()}
         types = [r["type"].realize(m) if type(r["type"]) is SymAtom else r["type"] for r in recs]
-        return {"kind": "gating", "checks": cats, "verdicts": vs, "record_types": types}
+        pre = []
+        for r in recs:
+            pr = RecPath.pre.get(_label(r["path"]))
+            ln = _LEN.get(r["contents"].label)
+            if pr is None:
+                pre.append(None)
+            else:
+                ex = bool(z3.is_true(m.eval(pr["exists"], model_completion=True)))
+                same = ln is not None and m.eval(pr["size"].e == ln[0].e, model_completion=True)
+                pre.append({"exists": ex, "same_size": bool(z3.is_true(same)) if ln is not None else False})
+        return {"kind": "gating", "checks": cats, "verdicts": vs, "record_types": types, "history": history,
+                "pre_existing": pre}
 
     try:
         with cov:
@@ -332,7 +406,9 @@ def run_c10(tier: str) -> int:
     cases = []
     for s in CATEGORY_SETS:
         for n in ((0, 2) if tier == "quick" else (0, 1, 2, 3)):
-            cases.append(("sym", s, n, tier))
+            cases.append(("sym", s, n, False, tier))
+    for s in ("one_per_category", "late_only"):
+        cases.append(("sym", s, 1, True, tier))
     cases += [("real", g, t, e, tier) for g, t, e in REAL_CASES]
     rep.bounds = {
         "check_sets": CATEGORY_SETS,
